@@ -304,6 +304,7 @@ class Frame:
         self.module = module
         self.parent = parent  # closure frame
         self.locals = {}
+        self.nonlocals = set()  # names declared ``nonlocal``: stores go to the enclosing frame that binds them
 
 
 # ------------------------------------------------------------------------------- order store
@@ -610,6 +611,9 @@ class Interp:
             return handler(self, list(args), dict(kwargs))
         if callable(func) and getattr(func, "_absint_stub", False):
             return func(self, list(args), dict(kwargs))
+        if isinstance(func, ModuleRef) and func.info is None:
+            # ``from contextlib import closing``: a name imported from a module outside the repository
+            return self._call(ExtRef(func.name), args, kwargs, node)
         raise Undecided("call of non-callable %r" % (func,))
 
     def call_function(self, info, args, kwargs, closure):
@@ -1193,7 +1197,9 @@ class Interp:
             if info is None:
                 info = FuncInfo((frame.info.qualname if frame.info else "?") + "." + node.name, node, frame.module, None, frame.info)
             frame.locals[node.name] = FuncRef(info, frame)
-        elif kind in (ast.Import, ast.ImportFrom, ast.Global, ast.Nonlocal):
+        elif kind is ast.Nonlocal:
+            frame.nonlocals.update(node.names)
+        elif kind in (ast.Import, ast.ImportFrom, ast.Global):
             raise Undecided("statement %s inside function" % kind.__name__)
         elif kind is ast.Delete:
             for target in node.targets:
@@ -1294,7 +1300,15 @@ class Interp:
     # ------------------------------------------------------------ assignment
     def assign(self, target, value, frame):
         if isinstance(target, ast.Name):
-            frame.locals[target.id] = value
+            if target.id in frame.nonlocals:
+                owner = frame.parent
+                while owner is not None and target.id not in owner.locals:
+                    owner = owner.parent
+                if owner is None:
+                    raise Undecided("nonlocal %s is not bound in an enclosing function" % target.id)
+                owner.locals[target.id] = value
+            else:
+                frame.locals[target.id] = value
         elif isinstance(target, ast.Attribute):
             self.setattr(self.eval(target.value, frame), target.attr, value)
         elif isinstance(target, ast.Subscript):
@@ -1673,6 +1687,9 @@ def _is_local_name(info, name):
         for statement in ast.walk(info.node):
             if isinstance(statement, ast.FunctionDef) and statement is not info.node:
                 names.add(statement.name)
+        for node in walk_own(info.node):
+            if isinstance(node, (ast.Nonlocal, ast.Global)):
+                names.difference_update(node.names)
         _LOCAL_CACHE[id(info.node)] = names
     return name in names
 
@@ -1894,6 +1911,17 @@ def _islice(interp, args, kwargs):
     if len(args) in (3, 4) and (len(args) == 3 or args[3] in (None, 1)):
         return _Islice(args[0], args[2], start=0 if args[1] is None else args[1])
     raise Undecided("islice with %d arguments" % len(args))
+
+
+@_ext("itertools.chain")
+def _chain(interp, args, kwargs):
+    def generate():
+        for iterable in args:
+            yield from interp.iterate(iterable)
+
+    lazy = _Iter(None)
+    lazy.generator = generate()
+    return lazy
 
 
 @_ext("builtins.zip")
